@@ -24,6 +24,14 @@ def check(ctx, cfg):
     r1(ctx, cfg)
     r2_attrs(ctx, cfg)
     r2_resp(ctx, cfg)
+    r5(ctx, cfg)
+
+
+def r5(ctx, cfg):
+    """premise shared with C17: the response that is validated, and whose events surface, is the one the contract returned -
+    nothing is filtered out of it before `verify_response` sees it (`customize_response`, C17.R4 under C13's id)"""
+    from rules import C17
+    C17.response_lift(ctx, cfg, "C13.R5")
 
 
 def r1(ctx, cfg):
